@@ -494,8 +494,8 @@ type Stmt struct {
 func (s *Stmt) Defs() map[string]*Node {
 	m := map[string]*Node{}
 	for _, f := range s.Fields {
-		if f.Alias != "" {
-			m[f.Alias] = f.E
+		if _, dup := m[f.Alias]; f.Alias != "" && !dup {
+			m[f.Alias] = f.E // a repeated name refers to the first field
 		}
 	}
 	return m
